@@ -31,6 +31,12 @@ const (
 	stallLate    = "late"     // calls RegisterPlugin >= 2 x the registration timeout after it was accepted
 	stallCfgHang = "cfg-hang" // registers, its Configure handler never answers
 	stallCfgErr  = "cfg-err"  // registers, answers Configure with an error
+	stallMulti   = "multi"    // calls RegisterPlugin several times on one connection (Attempts, GapMs, Final)
+
+	finalSilence    = "silence"     // after the invalid attempts: nothing more
+	finalDisconnect = "disconnect"  // ... closes its connection
+	finalValidEarly = "valid-early" // ... registers properly, clearly within the registration timeout
+	finalValidLate  = "valid-late"  // ... registers properly, >= 2 x the registration timeout after it was accepted
 
 	probePod = fx.ProbePodID
 
@@ -43,6 +49,19 @@ type Peer struct {
 	Idx   string `json:"idx"`
 	Mask  int32  `json:"mask"`
 	Stall string `json:"stall,omitempty"`
+
+	// stall "multi" only: the invalid registrations sent first (each with an empty name or an
+	// index that is not two digits), the gap between consecutive RegisterPlugin calls (below
+	// the registration timeout), and what follows them. Name/Idx are the final registration.
+	Attempts []Reg  `json:"attempts,omitempty"`
+	GapMs    int    `json:"gap_ms,omitempty"`
+	Final    string `json:"final,omitempty"`
+}
+
+// Reg is one RegisterPlugin request.
+type Reg struct {
+	Name string `json:"name"`
+	Idx  string `json:"idx"`
 }
 
 // C17Case is either a registration queue ("reg") or a socket-path case ("sock").
@@ -78,6 +97,24 @@ var twoDigits = regexp.MustCompile(`\A[0-9][0-9]\z`) // byte-wise ASCII: "a two-
 // expects) the peer to become active, and otherwise why not. timingOnly tells that the only
 // reason is lateness, which is the one verdict that depends on the clock.
 func validity(p Peer) (valid bool, why string, timingOnly bool) {
+	valid, why, timingOnly, _ = judgeSpec(p)
+	return
+}
+
+// isOpen tells that the statement leaves the peer's fate open (see judgeSpec); such a peer
+// counts as a bad one for the time bound of the peers behind it.
+func isOpen(p Peer) bool {
+	_, _, _, open := judgeSpec(p)
+	return open
+}
+
+// judgeSpec: open = the statement leaves it open whether the peer becomes active: a peer
+// whose first registrations are invalid and which registers properly on the same connection
+// clearly within the registration timeout ("becomes active only if it registers with a
+// non-empty name and a two-digit index within the registration timeout" is an only-if; the
+// unchanged runtime abandons the connection at the first invalid registration). Such a peer
+// is reported as not valid here and judged leniently by the oracle.
+func judgeSpec(p Peer) (valid bool, why string, timingOnly bool, open bool) {
 	var reasons []string
 	if p.Name == "" {
 		reasons = append(reasons, "empty name")
@@ -95,15 +132,35 @@ func validity(p Peer) (valid bool, why string, timingOnly bool) {
 		reasons = append(reasons, "never answers Configure")
 	case stallCfgErr:
 		reasons = append(reasons, "answers Configure with an error")
+	case stallMulti:
+		switch p.Final {
+		case finalValidEarly, finalValidLate:
+		case finalDisconnect:
+			reasons = append(reasons, fmt.Sprintf("%d invalid registrations, then disconnects", len(p.Attempts)))
+		default:
+			reasons = append(reasons, fmt.Sprintf("%d invalid registrations, then silence", len(p.Attempts)))
+		}
 	}
 	content := len(reasons)
 	if p.Stall == stallLate {
 		reasons = append(reasons, "registers after the registration timeout")
 	}
-	if len(reasons) == 0 {
-		return true, "", false
+	if p.Stall == stallMulti && (p.Final == finalValidEarly || p.Final == finalValidLate) {
+		at := time.Duration(len(p.Attempts)*p.GapMs) * time.Millisecond // offset of the valid registration
+		switch {
+		case len(p.Attempts) == 0:
+			// nothing invalid ahead of it: an ordinary timely registration
+		case at >= 2*regTimeout:
+			reasons = append(reasons, fmt.Sprintf("%d invalid registrations %d ms apart, the valid one only %v after it was accepted (registration timeout %v)", len(p.Attempts), p.GapMs, at, regTimeout))
+		case content == 0:
+			// early enough (or too close to the timeout to call): open
+			return false, fmt.Sprintf("%d invalid registrations, then a valid one %v after it was accepted: left open by the statement", len(p.Attempts), at), false, true
+		}
 	}
-	return false, strings.Join(reasons, "; "), content == 0
+	if len(reasons) == 0 {
+		return true, "", false, false
+	}
+	return false, strings.Join(reasons, "; "), content == 0, false
 }
 
 func subscribed(mask int32, e int32) bool {
@@ -262,13 +319,14 @@ func genGoodPeer(t *rapid.T, label string) Peer {
 }
 
 // genBadPeer starts from a good peer and breaks one (sometimes two) things. The three
-// defects that cost wall time (silent, late, cfg-hang: one timeout each) have a combined
-// weight of 5/18 so that the average case stays well below 0.4 s.
+// defects that cost wall time (silent, late, cfg-hang, multi: one or two timeouts each) have a combined
+// weight of 7/20 so that the average case stays well below 0.4 s.
 func genBadPeer(t *rapid.T, label string) Peer {
 	p := genGoodPeer(t, label)
 	defects := []string{
 		"idx", "mask", stallSilent, "name", stallCfgHang, "idx", stallLate, "mask", stallCfgErr,
 		"two", "idx", "mask", stallSilent, stallCfgHang, "idx", "mask", "name", stallCfgErr,
+		stallMulti, stallMulti,
 	}
 	apply := func(d string, l string) {
 		switch d {
@@ -278,6 +336,8 @@ func genBadPeer(t *rapid.T, label string) Peer {
 			p.Idx = genBadIdx(t, l+"-idx")
 		case "mask":
 			p.Mask = genBadMask(t, l+"-mask")
+		case stallMulti:
+			genMulti(t, &p, l)
 		default:
 			p.Stall = d
 		}
@@ -291,6 +351,44 @@ func genBadPeer(t *rapid.T, label string) Peer {
 		apply(d, label)
 	}
 	return p
+}
+
+// genBadReg draws one invalid registration: empty name, or an index off the valid form.
+func genBadReg(t *rapid.T, label string) Reg {
+	r := Reg{Name: genName(t, label+"-name"), Idx: genGoodIdx(t, label+"-idx")}
+	switch rapid.SampledFrom([]string{"idx", "name", "idx", "both"}).Draw(t, label+"-what") {
+	case "name":
+		r.Name = ""
+	case "idx":
+		r.Idx = genBadIdx(t, label+"-badidx")
+	default:
+		r.Name, r.Idx = "", genBadIdx(t, label+"-badidx")
+	}
+	return r
+}
+
+// genMulti turns p into a peer that calls RegisterPlugin several times on its connection:
+// k invalid registrations spaced by a gap well below the registration timeout (200 ms),
+// then silence, a disconnect, or p's own (well-formed) registration - either clearly within
+// the timeout (k x gap <= 80 ms) or clearly after it (k x gap >= 2 x timeout).
+func genMulti(t *rapid.T, p *Peer, label string) {
+	p.Stall = stallMulti
+	p.Final = rapid.SampledFrom([]string{finalValidLate, finalSilence, finalValidLate, finalDisconnect, finalValidEarly, finalValidLate}).Draw(t, label+"-final")
+	k := 0
+	switch p.Final {
+	case finalValidLate:
+		p.GapMs = rapid.SampledFrom([]int{60, 40, 100}).Draw(t, label+"-gap")
+		k = (int(2*regTimeout/time.Millisecond)+p.GapMs-1)/p.GapMs + rapid.IntRange(0, 1).Draw(t, label+"-more")
+	case finalValidEarly:
+		p.GapMs = rapid.SampledFrom([]int{20, 40}).Draw(t, label+"-gap")
+		k = rapid.IntRange(1, 80/p.GapMs).Draw(t, label+"-k")
+	default:
+		p.GapMs = rapid.SampledFrom([]int{60, 40, 100}).Draw(t, label+"-gap")
+		k = rapid.IntRange(1, 5).Draw(t, label+"-k")
+	}
+	for i := 0; i < k; i++ {
+		p.Attempts = append(p.Attempts, genBadReg(t, fmt.Sprintf("%s-try%d", label, i)))
+	}
 }
 
 func genEvents(t *rapid.T) []int32 {
@@ -354,6 +452,17 @@ func runC17(c C17Case) ev.Outcome {
 		if !utf8.ValidString(p.Name) || !utf8.ValidString(p.Idx) {
 			return ev.Outcome{Excluded: "non-utf8-string"} // cannot be sent in a protobuf string field
 		}
+		for _, a := range p.Attempts {
+			if !utf8.ValidString(a.Name) || !utf8.ValidString(a.Idx) {
+				return ev.Outcome{Excluded: "non-utf8-string"}
+			}
+			if a.Name != "" && twoDigits.MatchString(a.Idx) {
+				return ev.Outcome{Excluded: "multi-attempt-not-invalid"} // the attempts ahead of the final one are invalid by construction
+			}
+		}
+		if p.Stall == stallMulti && (p.GapMs < 1 || time.Duration(p.GapMs)*time.Millisecond > regTimeout*3/4 || len(p.Attempts) > 40) {
+			return ev.Outcome{Excluded: "multi-gap-out-of-domain"} // gaps stay clearly below the registration timeout
+		}
 	}
 	for _, e := range c.Events {
 		if e < 1 || e > 13 {
@@ -363,6 +472,7 @@ func runC17(c C17Case) ev.Outcome {
 
 	o := regClasses(c)
 	v := runRegOnce(c)
+	o.Lenient = v.lenient
 	if v.fail == "" {
 		return o
 	}
@@ -377,6 +487,7 @@ func runC17(c C17Case) ev.Outcome {
 	for i := 0; i < 3; i++ {
 		last = runRegOnce(c)
 		if last.fail == "" {
+			o.Lenient = last.lenient
 			o.Overloaded = true
 			ev.Get("C17").AddExtra("overloaded_"+v.clause, 1)
 			return o
@@ -393,13 +504,33 @@ func runC17(c C17Case) ev.Outcome {
 	return o
 }
 
+func bucket(n int) string {
+	switch {
+	case n <= 2:
+		return fmt.Sprint(n)
+	case n <= 5:
+		return "3-5"
+	default:
+		return "6+"
+	}
+}
+
 func regClasses(c C17Case) ev.Outcome {
 	var o ev.Outcome
 	firstGood, nValid, badBeforeValid := -1, 0, false
-	nInvalidSoFar := 0
+	nInvalidSoFar, openSoFar := 0, 0
 	classes := map[string]bool{}
 	for i, p := range c.Peers {
 		ok, _, _ := validity(p)
+		if p.Stall == stallMulti {
+			classes["stall:multi"] = true
+			classes["multi:"+p.Final] = true
+			classes[fmt.Sprintf("multi:attempts-%s", bucket(len(p.Attempts)))] = true
+		}
+		if isOpen(p) {
+			openSoFar++ // neither certainly invalid nor valid: does not make a case non-trivial
+			continue
+		}
 		if ok {
 			nValid++
 			if firstGood < 0 {
@@ -427,6 +558,7 @@ func regClasses(c C17Case) ev.Outcome {
 			classes["stall:"+p.Stall] = true
 		}
 	}
+	_ = openSoFar
 	if firstGood < 0 {
 		firstGood = len(c.Peers)
 	}
@@ -455,6 +587,7 @@ type regVerdict struct {
 	timing  bool   // the failed clause depends on the clock
 	clause  string // short name of the (first) failed time clause, for the evidence counters
 	history any
+	lenient []string
 }
 
 type firedEvent struct {
@@ -572,7 +705,7 @@ func runRegOnce(c C17Case) (v regVerdict) {
 	}
 
 	// ----- oracle -----
-	var contentFails, timingFails []string
+	var contentFails, timingFails, lenient []string
 	note := func(c string) {
 		if clause == "" {
 			clause = c
@@ -587,6 +720,16 @@ func runRegOnce(c C17Case) (v regVerdict) {
 			if cl.Kind == "Event" {
 				got = append(got, cl)
 			}
+		}
+		if isOpen(spec) {
+			// The statement leaves it open whether this peer becomes active; if it did, it is
+			// judged like any active plugin (Synchronize once, exactly the events of its mask).
+			if r.NSync == 0 && len(got) == 0 && r.Probes == 0 {
+				lenient = append(lenient, "multi:early-valid-not-activated")
+				continue
+			}
+			lenient = append(lenient, "multi:early-valid-activated")
+			ok = true
 		}
 		if !ok {
 			// "any other plugin never receives synchronization or events"
@@ -674,7 +817,7 @@ func runRegOnce(c C17Case) (v regVerdict) {
 	if len(timingFails) > 0 {
 		return finish(strings.Join(timingFails, " | "), true)
 	}
-	return regVerdict{}
+	return regVerdict{lenient: lenient}
 }
 
 func regNote(r PeerRecord) string {
